@@ -31,16 +31,15 @@ p["modules"] += ["RrProofs.Props.C03Exec"]
 p["theorems"] += [
     T("Props.C03Exec.performRequest_intact", "full", "connect_retries_resend_body: every answered attempt of performRequest carries the complete body, for every fault script / retry count / method"),
     T("Props.C03Exec.routeOnce_intact", "full", "one pass of routeRequest (copy target, proxy target, repeats) delivers method and complete body to every answered contact"),
-    T("Props.C03Exec.every_contact_intact_partial", "partial", "Statement for rules without retry_rule (class C03-a excluded)"),
-    T("Props.C03Exec.fails_witness", "witness", "PUT + body, main 404, retry_rule ⇒ fallback contact has empty body"),
-    T("Props.C03Exec.Statement_false", "negation", "the full statement (all retry chains) is false of the model; replayed on the implementation by kf.C03-a"),
+    T("Props.C03Exec.routeRequest_intact", "full", "the invariant through the whole retry chain: each pass starts with the complete body (re-armed before a fallback)"),
+    T("Props.C03Exec.holds_model", "full", "Statement: for every rule flavour, fault script and retry chain of any depth, every answered contact (proxy, copy, repeat, fallback) received the client's method and complete body"),
 ]
-p["streams"] += [S("sysu", 3000, 40000)]
+p["streams"] += [S("sysu", 3000, 40000), S("kf.C03-a", 3, 3, 1)]
 p["trivial_labels"] += ["outside-S1:flag", "rules-rejected"]
 p["rule"] += _SYS_RULE
 p["trusted_base"] += _SYS_TB
 if not p["full_statement_status"]:
-    p["full_statement_status"] = "method/body clause: partial (C03-a) + refutation; header clauses: function level"
+    p["full_statement_status"] = "method/body clause: proved at full strength on the executor model after the fix: commit for C03-a; header clauses: function level"
 
 p = _ensure("C05", "Every request gets one complete, well-formed response mirroring the origin")
 p["modules"] += ["RrProofs.Props.C03Exec", "RrProofs.Props.C01Exec"]
